@@ -892,3 +892,36 @@ def multiDecodeRow (T : Tables) (formats : List EanKind) (row : List Bool) : Res
   multiLoop T row sg (formats.contains .upca) readers
 
 end Gzx.OneD
+
+namespace Gzx.OneD
+open Gzx Gzx.CheckDigit
+
+/-! ## rows the UPC/EAN read-back theorems talk about (additions for Properties/C03; no behaviour of the
+    definitions above depends on them) -/
+
+/-- every module repeated `s` times — the body of `renderRow` (`multiple = s`) -/
+def scaleRow (s : Nat) (code : List Bool) : List Bool := (code.map (fun b => List.replicate s b)).flatten
+
+/-- a rendered row: `lq` white pixels, the module pattern at `s` pixels per module, `rq` white pixels -/
+def paddedRow (lq s rq : Nat) (code : List Bool) : List Bool :=
+  List.replicate lq false ++ scaleRow s code ++ List.replicate rq false
+
+/-- the module pattern a UPC/EAN writer draws -/
+def upceanModules (T : Tables) : EanKind → List Nat → Res (List Bool)
+  | .ean13, c => ean13Modules T c
+  | .ean8, c => ean8Modules T c
+  | .upca, c => upcaModules T c
+  | .upce, c => upceModules T c
+
+/-- the text the matching reader reports for the digit string `full` the writer drew
+    (UPC-A is drawn as the EAN-13 symbol of "0"+contents and reported without that "0") -/
+def upceanCanonical : EanKind → List Nat → List Nat
+  | .upca, full => full.drop 1
+  | _, full => full
+
+/-- modules of the end guard the reader matches (its width is the right quiet zone it insists on) -/
+def endGuardOf (T : Tables) : EanKind → List Nat
+  | .upce => T.upceMiddleEnd
+  | _ => T.startEnd
+
+end Gzx.OneD
